@@ -67,5 +67,11 @@ PROPS['C11'] = dict(engine='clientstate', level='model_checking', foot=[], quick
                                  'up to length 4 (quick) / 5 (thorough), each through 5 wrapper stacks; the library exposes no cookie delete-all',
                                  'the recording stores and the recording underlying writer share one sequence, so relative order is exact'])
 
+PROPS['C15'] = dict(engine='redirect', level='model_checking', foot=[], quick={}, thorough={},
+                    technique='TLA+ spec of browser URL resolution and the redirect guard over a URL-significant alphabet (spec/RedirectGuard.tla): TLC checks NoOffSite/StillUseful for every string; every string is sent through the real login flows and the real Location is classified by an independent oracle',
+                    assumptions=['strings over 12 URL-significant symbols up to length 4 (quick) / 5 (thorough); each symbol is concretised to several characters or runs (letters include http, https, javascript, data)',
+                                 'Resolve is the worst case over concretisations, cross-checked against an independent Go implementation of WHATWG preprocessing on every enumerated string (a disagreement is exit 2)',
+                                 'all strings go through the password flow in form and JSON mode; the otp/totp/sms/oauth2 flows get a seeded 30% sample of the strings'])
+
 import components
-COMPONENT = {'mwtable': components.mwtable, 'clientstate': components.clientstate}
+COMPONENT = {'mwtable': components.mwtable, 'clientstate': components.clientstate, 'redirect': components.redirect}
